@@ -173,8 +173,10 @@ def part_signing(ctx, wt, m, n, how, thorough):
             model = run_driver(['ms_signed %d %d %s' % (m, n, ','.join(str(pos[s]) for s in prefix))])[0].split(' | ')[0]
             msig, mvalid = model.split(' valid=')
             nsig = len(cur.inputs[0].signatures)
-            got = '%d valid=%s' % (nsig, 'true' if cur.verify() else 'false')
-            want = '%d valid=%s' % (len(msig.split(',')) if msig != '-' else 0, mvalid)
+            # signatures beyond the threshold are not constrained by the property (the raw form carries m of them, a repeated signer
+            # may be stored twice): compare the count up to m, and validity
+            got = '%d valid=%s' % (min(nsig, m), 'true' if cur.verify() else 'false')
+            want = '%d valid=%s' % (min(len(msig.split(',')) if msig != '-' else 0, m), mvalid)
             trace.append((got, want))
             ctx.evals += 1
             ctx.count('step:%s:%s' % (how, 'agree' if got == want else 'differ'))
